@@ -7,7 +7,8 @@
 (* Common commands are leaves of the root whose name starts with `*'.      *)
 EXTENDS Mnemonic, FiniteSets
 
-CONSTANT Tree
+CONSTANT Tree,
+         MCands   \* candidate mnemonics for which Matches is tabulated once (an evaluation cache only)
 
 Nodes == 1..Len(Tree.kind)
 Root  == 1
@@ -15,6 +16,8 @@ Kids(b)   == {c \in Nodes : c # Root /\ Tree.parent[c] = b}
 IsLeaf(c) == Tree.kind[c] = "leaf"
 Name(c)   == Tree.name[c]
 Dflt(c)   == Tree.dflt[c]
+MTab == [m \in MCands |-> {n \in 2..Len(Tree.kind) : Matches(Tree.name[n], m)}]
+Hit(c, m) == IF m \in MCands THEN c \in MTab[m] ELSE Matches(Name(c), m)
 DefBranches(b) == {c \in Kids(b) : ~IsLeaf(c) /\ Dflt(c)}
 DefLeafKids(b) == {c \in Kids(b) : IsLeaf(c) /\ Dflt(c)}
 
@@ -29,7 +32,7 @@ DefLeaves(b) == DefLeafKids(b) \cup UNION {DefLeaves(d) : d \in DefBranches(b)}
 RECURSIVE Desig(_, _)
 Desig(b, path) ==
     LET m == Head(path)  rest == Tail(path) IN
-    UNION { IF Matches(Name(c), m)
+    UNION { IF Hit(c, m)
             THEN IF IsLeaf(c) THEN (IF rest = <<>> THEN {[leaf |-> c, level |-> b]} ELSE {})
                  ELSE IF rest = <<>> THEN {[leaf |-> l, level |-> b] : l \in DefLeaves(c)}
                       ELSE Desig(c, rest)
@@ -40,7 +43,7 @@ Branches == {n \in Nodes : ~IsLeaf(n)}
 
 (* ---- code-shaped twin: first match without backtracking, default branch as fallback ---- *)
 RECURSIVE Resolve(_, _)
-FirstMatch(b, m) == LET S == {c \in Kids(b) : Matches(Name(c), m)} IN
+FirstMatch(b, m) == LET S == {c \in Kids(b) : Hit(c, m)} IN
                     IF S = {} THEN 0 ELSE CHOOSE c \in S : \A x \in S : c <= x
 RECURSIVE ResolveEnd(_)
 ResolveEnd(b) == IF DefLeafKids(b) # {} THEN {CHOOSE l \in DefLeafKids(b) : \A x \in DefLeafKids(b) : l <= x}
@@ -61,7 +64,7 @@ RECURSIVE Merged(_)
 Merged(b) == Kids(b) \cup UNION {Merged(d) : d \in DefBranches(b)}
 
 NoClash(b, cands) ==           \* no candidate matches two nodes merged into b's level
-    \A m \in cands : Cardinality({c \in Merged(b) : Matches(Name(c), m)}) <= 1
+    \A m \in cands : Cardinality({c \in Merged(b) : Hit(c, m)}) <= 1
 OneDefault(b) == Cardinality(DefLeafKids(b)) <= 1 /\ Cardinality(DefBranches(b)) <= 1
                  /\ Cardinality(DefLeaves(b)) <= 1
 AnonOnlyDefaultLeaf == \A n \in Nodes \ {Root} : Name(n) = <<>> => (IsLeaf(n) /\ Dflt(n))
